@@ -19,7 +19,7 @@ CHECKS = {
  'C04': ('exploration', 'ForEach.tla proves (TLC, all chunk orders/assignments/combine orders) that the library\'s three parallel output idioms are schedule-independent '
          'exactly when the sort key is total and accumulation is integral, and refutes the tie / float variants; the same case file (refined Expr.tla '
          'expressions above the parallel thresholds, coincident imports, >2^18-vertex imports, sphere/batch Booleans, hull, Minkowski, level set, smoothing, '
-         'CrossSection Booleans above the BVH threshold, Triangulate) runs in the serial-backend build and the TBB build with arena sizes 1,2,3,7,16, repeatedly; all export hashes must agree.',
+         'CrossSection Booleans above the BVH threshold, Triangulate; cases that once exposed a defect stay pinned) runs in the serial-backend build and the TBB build with arena sizes 1,2,3,7,16, repeatedly; all export hashes must agree.',
          'TBB schedules are sampled (arena size x repetition), not enumerated; original IDs renamed by first occurrence',
          'TLC model checking of the output idioms + cross-configuration replay of one case file', '5 C04'),
  'C05': ('model_checking', 'Program.tla!ValueStable model-checked; TLC-generated histories over a pool of live objects replayed with every '
@@ -30,7 +30,8 @@ CHECKS = {
  'C06': ('model_checking', 'Sync.tla: every shared-field access of the handle/op-node/leaf machinery as a micro-step with the locks the code holds; TLC interleaves '
          '2-3 client threads and checks the lockset discipline and deadlock freedom (the unguarded-cache_ variant of the pinned tree is refuted). Client programs '
          'over the same call menu run on real threads in a ThreadSanitizer build (serial backend: all synchronisation visible) with seeded skew; a TSan report, '
-         'a hang, or an answer differing from the serial run is a violation.',
+         'a hang, or an answer differing from the serial run is a violation. Lifetime.tla: ownership (shared_ptr owners) of the shared sub-node while threads evaluate through copies of the handles; '
+         'TLC checks NoUseAfterFree/FreedIffUnowned/NoLeakAtEnd and refutes the raw-pointer NumLeaves walk (F24); its programs are projected onto the same driver with more repetitions.',
          'ThreadSanitizer is the race witness; thread timing is sampled; the access table of Sync.tla is a hand transcription',
          'TLC model checking of the locking protocol + TSan-witnessed replay of client programs', '5 C06'),
  'C07': ('exploration', 'Expr.tla derives the instances (original, composed transform) of every enumerated expression; originals are imported lattice boxes with one '
@@ -49,18 +50,18 @@ CHECKS = {
          'TLC-enumerated abstract inputs (fault classes) executed on the real code under sanitizers', '5 C09'),
  'C10': ('model_checking', 'Poly.tla states C10 on integer-lattice polygon sets with exact integer predicates; TLC explores all simple lattice paths/polygons of the bound and the '
          'hole/nesting/multi-outer/star/duplicate-vertex/arbitrary families, checking generator/predicate agreement, Pick\'s theorem, satisfiability via a reference ear clipper and rejection of '
-         'corrupted triangulations. Every generated set is executed on the real TriangulateIdx/Triangulate/PolygonTriangulator under exact similarity views and a watchdog; outputs are validated by an '
+         'corrupted triangulations. Every generated set is executed on the real TriangulateIdx/Triangulate/PolygonTriangulator under exact similarity views, placement classes (scales 1e-3..1e3, offsets up to 3e6; admissibility = feature size >= 1000 eps decided by the spec) and a watchdog; outputs are validated by an '
          'integer transcription of ValidTriangulation, and a sample of recorded outputs is validated by TLC itself (Poly_Trace).',
          'C++ transcription of the predicate (cross-checked against the spec per case); CCW-within-eps = cross >= 0 on exact views; ASan/UBSan as memory oracle',
          'TLA+/TLC state-graph enumeration + replay + trace validation', '5 C10'),
  'C11': ('model_checking', 'Xsec.tla: exact integer winding numbers of pixel centres for arbitrary lattice/half-lattice contours under Positive/EvenOdd, set-algebra '
          'Booleans/BatchBoolean and lattice transforms, with the oracle\'s own soundness invariants and the set laws checked by TLC on every state; every contour set of <=2 catalogue '
-         'contours and every small program enumerated exhaustively (plus seeded simulation and >1024-edge staircases). Every program is executed through the real CrossSection API and every '
+         'contours and every small program enumerated exhaustively (plus seeded simulation, >1024-edge staircases, operands with inflated tolerance, and XsecPoly.tla: lattice triangles/quadrilaterals with shared tips, fans, crossings at rational points, judged at 8 generic sample points per pixel + a dense grid). Every program is executed through the real CrossSection API and every '
          'object judged by an independent crossing-number oracle on ToPolygons(), Area(), an exact-arithmetic Regularized predicate, lattice-ness and operand-order independence.',
          'lattice / half-lattice regime; drive/xsec.h oracles; hand binding of generators to API calls', 'explicit TLA+ specification + TLC (BFS and -simulate) + replay binding', '5 C11'),
  'C12': ('model_checking', 'Xoff.tla (on Xsec.tla): TLC enumerates lattice regions, point sets and rings, checks the consistency of the exact integer oracles (Chebyshev dilation/erosion for miter joins, '
          'rational chordal bands for round joins, generic containment/limit clauses for every join type, convex hull, edge-connected components, the Simplify relation) and prints every case with the '
-         'demanded pixel sets, hull cycles, components and tolerances; the driver executes CrossSection::Offset/Hull/Decompose/Simplify on each and judges with independent winding and integer predicates.',
+         'demanded pixel sets, hull cycles, components and tolerances; a corner-angle family (38 polygons covering convex/reflex x <30/30-90/>90 degrees and collinear, 10 segment counts, both delta signs) is probed on rays around every vertex; the driver executes CrossSection::Offset/Hull/Decompose/Simplify on each and judges with independent winding and integer predicates.',
          'Xsec.tla winding oracle, CosLB table, drive/xsec.h Windings/Regularized; integer deltas -2..2 on small lattice regions; F-C12-1 masks double-inversion failures',
          'TLA+ spec as oracle and generator, replay against the real API', '5 C12'),
  'C13': ('model_checking', 'ParScan/ParReduce.tla: the oneTBB scan/reduce protocols over transcriptions of ScanBody, CopyIfScanBody, SortedRange, all protocol '
@@ -72,7 +73,7 @@ CHECKS = {
          'TLC model checking of protocols/interleavings + replay of every enumerated instance/schedule on the real code', '5 C13'),
  'C14': ('model_checking', 'RadixTree.tla transcribes collider.h (CreateRadixTree with index tie-break/RangeEnd/FindSplit, BuildInternalBoxes arrival counters under all interleavings, '
          'FindCollision stack traversal, Box overlap/Transform); TLC checks full-binary-tree, contiguous-range and partition invariants for every sorted Morton multiset of 2..6 leaves over 8 codes, '
-         'box = union of range, and traversal = brute-force closed-interval set on every tree x interval assignment x query. Every TLC-printed case plus seeded sets up to 5000 leaves are executed on the real '
+         'box = union of range, and traversal = brute-force closed-interval set on every tree x interval assignment x query, including unbounded and empty query boxes/points (sentinels mapped to +-inf). Every TLC-printed case plus seeded sets up to 5000 leaves are executed on the real '
          'Collider (all Collisions overloads, Transform, UpdateBoxes), the boolean2 sweep/BVH broad phase and the polygon k-d tree, and pair multisets compared.',
          'hand transcription of collider.h:76-235 (tree shape compared with the real CreateRadixTree on every case); driver brute-force scan for large cases validated against the spec',
          'TLC model checking of a transcription + TLC case generation with spec-computed oracle + replay on the real code', '5 C14'),
